@@ -528,6 +528,11 @@ def _doubling():
     return doubling_unit
 
 
+def _doubling_any():
+    from .c05 import doubling_any_unit
+    return doubling_any_unit
+
+
 def _node_by_lineno():
     from .c16 import node_by_lineno_unit
     return node_by_lineno_unit
@@ -543,6 +548,7 @@ def units(tier):
         Unit("C11/marker-constants+reduce_to_section", constants_unit, "P", [(MU, "find_marked_kernel_x86ATT"), (MU, "find_marked_kernel_AArch64"), (MU, "reduce_to_section")]),
         Unit("C11/transparency/assign_tp_lt(no mnemonic)", tp_lt_trivial_unit, "P", [(AS, "ArchSemantics.assign_tp_lt")]),
         Unit("C11/line-numbers-are-only-labels/LCD-doubling(symbolic line numbers)", _doubling(), "Pb", [("osaca/semantics/kernel_dg.py", "KernelDG.check_for_loopcarried_dep")]),
+        Unit("C11/line-numbers-are-only-labels/LCD-doubling(any kernel length, arbitrary positive line numbers)", _doubling_any(), "P", [("osaca/semantics/kernel_dg.py", "KernelDG.check_for_loopcarried_dep")]),
         Unit("C11/line-numbers-are-only-labels/_get_node_by_lineno", _node_by_lineno(), "P", [("osaca/semantics/kernel_dg.py", "KernelDG._get_node_by_lineno")]),
         Unit("C11/get_line_range(any number of items)", line_range_unit, "P", [(OS, "get_line_range")]),
         Unit("C11/inspect/kernel-selection(any file length)", inspect_selection_unit, "P", [(OS, "inspect"), (OS, "get_line_range")]),
